@@ -1,6 +1,6 @@
 (* EntryReader.v — entry points of the reader area (codes 200-299) over the universal value sx.
    200 Python reader run            201 Python reader rows (line_mode, _get_all_rows)
-   202 spec records_of_text         203 spec split_lines            204 spec rows_of_lines on a text
+   202 spec records_of_text         203 spec split_lines            204 spec rows_of_lines on a text    205 rows_of_lines on lines
    210 JS reader over decoded chunks  211 JS reader over byte chunks (stream)   212 JS reader bulk
    213 lines_js (decoded chunks)      214 lines_js_bulk
    220 UTF-8 streaming decode   221 UTF-8 whole decode   222 UTF-8 encode   223 decode_each_chunk (pre-fix behaviour)
@@ -134,6 +134,17 @@ Definition ep_spec_rows (x : sx) : sx :=
   | _ => ERR
   end.
 
+(* 205: L [cfg; L [line ...]] : the logical rows of an explicit list of physical lines *)
+Definition ep_spec_rows_of_lines (x : sx) : sx :=
+  match x with
+  | L [c; ls] =>
+      match cfg_of_sx c, strs_of_sx ls with
+      | Some c', Some ls' => sx_of_rows (rows_of_lines c' ls')
+      | _, _ => ERR
+      end
+  | _ => ERR
+  end.
+
 (* 210: L [cfg; split; b0; L [L [decoded chunk; run continuations after it] ...]] *)
 Definition ep_js_decoded (x : sx) : sx :=
   match x with
@@ -204,6 +215,7 @@ Definition dispatch_reader (code : N) (x : sx) : option sx :=
   | 202%N => Some (ep_spec_records x)
   | 203%N => Some (ep_split_lines x)
   | 204%N => Some (ep_spec_rows x)
+  | 205%N => Some (ep_spec_rows_of_lines x)
   | 210%N => Some (ep_js_decoded x)
   | 211%N => Some (ep_js_stream x)
   | 212%N => Some (ep_js_bulk x)
